@@ -14,7 +14,7 @@ const IDENTS: &[&str] = &["x", "y", "foo", "bar_1", "n", "items", "self", "naïv
 const FUNCS: &[&str] = &["f", "g", "print", "len", "compute", "λ_fn", "取得"];
 const STRS: &[&str] = &["\"a\"", "'b c'", "\"héllo\"", "'日本語'", "\"😀 ok\"", "\"\"", "'x=1'", "\"ß→∂\""];
 const NUMS: &[&str] = &["0", "1", "42", "3.5", "0x1f", "1000000"];
-const BINOPS: &[&str] = &["+", "-", "*", "/", "==", "<", "and", "or", "%"];
+const BINOPS: &[&str] = &["+", "-", "*", "/", "==", "<", "and", "or", "%", "not in", "is not", "in", "is", "not in", "is not"];
 const STRAY: &[&str] = &["$", "?", "!", "¤", "€", "`", "§", "@@", "\\", "😀", "'", "\""];
 const BRACKETS: &[&str] = &["(", ")", "[", "]", "{", "}"];
 
@@ -45,7 +45,7 @@ fn gen_expr(rng: &mut Rng, depth: usize) -> Vec<String> {
             v.push(s(")"));
             v
         }
-        5..=6 => { let mut v = gen_expr(rng, depth - 1); v.push(pk(rng, BINOPS)); v.extend(gen_expr(rng, depth - 1)); v }
+        5..=6 => { let mut v = gen_expr(rng, depth - 1); for w in pk(rng, BINOPS).split(' ') { v.push(s(w)); } v.extend(gen_expr(rng, depth - 1)); v }   // multi-word operators are separate tokens, so faults can land between them
         7 => { // list
             let mut v = vec![s("[")];
             let n = rng.below(4);
